@@ -35,5 +35,8 @@ class Cloning:
     cpy = self.__class__(data_cpy, vlevel = self.vlevel,
                          virtual = self.virtual, version = self.version)
     cpy._datatype = self._datatype.copy()
+    if hasattr(self, "_positional_fieldnames"):
+      # custom records: the positional field names are set when the line is parsed
+      cpy._positional_fieldnames = list(self._positional_fieldnames)
     # cpy._refs and cpy._gfa are not set, so that the cpy is disconnected
     return cpy
